@@ -210,21 +210,49 @@ func floatJ(f float64) *FloatJ {
 
 // ---- running the real conversions on slices of raw values ------------------------------------------
 
+// dirty returns a recognisable non-zero value of type D spread over its whole width (so that a stale sample
+// neither looks like a converted one nor narrows to zero).
+func dirty[D signal.SignalTypes](i int) D {
+	var z D
+	switch any(z).(type) {
+	case float32, float64:
+		if i%2 == 0 {
+			return D(1) / 3
+		}
+		return -D(2) / 3
+	}
+	pat := uint64(0x5555555555555555)
+	if i%2 == 1 {
+		pat = 0x2A2A2A2A2A2A2A2A
+	}
+	return dirtyInt[D](pat)
+}
+
+func dirtyInt[D signal.SignalTypes](pat uint64) D {
+	var d D
+	sz := unsafe.Sizeof(d) * 8
+	v := pat & (1<<(sz-1) - 1) // keep the sign bit clear: positive in every integer type
+	// D(v) of a uint64 is exact for every integer D after masking
+	return fromU64[D](v)
+}
+
+func fromU64[D signal.SignalTypes](v uint64) D { return D(v) }
+
 func convertSlice[S, D signal.SignalTypes](conv func(*signal.Buffer[S], *signal.Buffer[D]) int, in []S) []D {
 	n := len(in)
-	// interleave over 1..3 channels (whatever divides the input) and start from a dirty destination, so
-	// that a sample the function fails to convert cannot pass as a converted one
-	ch := 1
-	if n%2 == 0 && n > 0 {
-		ch = 2
-	} else if n%3 == 0 && n > 0 {
-		ch = 3
+	// Interleave over 1..3 channels. The buffers are filled sample by sample, so when n is not a multiple of the
+	// channel count the last frame is partly filled (ragged); the destination starts dirty, so that a sample the
+	// function fails to convert cannot pass as a converted one.
+	ch := 1 + n%3
+	if n < 4 {
+		ch = 1
 	}
-	src := signal.Alloc[S](signal.Allocator{Channels: ch, Length: n / ch, Capacity: n / ch})
-	dst := signal.Alloc[D](signal.Allocator{Channels: ch, Length: n / ch, Capacity: n / ch})
+	frames := (n + ch - 1) / ch
+	src := signal.Alloc[S](signal.Allocator{Channels: ch, Length: 0, Capacity: frames})
+	dst := signal.Alloc[D](signal.Allocator{Channels: ch, Length: 0, Capacity: frames})
 	for i, v := range in {
-		src.SetSample(i, v)
-		dst.SetSample(i, D(85-43*(i%2)))
+		src.AppendSample(v)
+		dst.AppendSample(dirty[D](i))
 	}
 	conv(src, dst)
 	out := make([]D, n)
@@ -255,6 +283,23 @@ func shuffledBlocks[S, D signal.SignalTypes](rng *rand.Rand, conv func(*signal.B
 			emit(in[i], ys[i])
 		}
 		idx = idx[n:]
+	}
+	// one large block (length just above 2^16, not a multiple of 4): a path that switches strategy for large
+	// buffers (blocks, goroutines) must convert every sample; the tail and a random sample of positions are judged
+	if len(xs) > 0 {
+		n := 1<<16 + 1 + rng.Intn(3)
+		in := make([]S, n)
+		for i := range in {
+			in[i] = xs[rng.Intn(len(xs))]
+		}
+		ys := convertSlice(conv, in)
+		for k := 0; k < 40; k++ {
+			i := rng.Intn(n)
+			if k < 8 {
+				i = n - 1 - k
+			}
+			emit(in[i], ys[i])
+		}
 	}
 }
 
